@@ -58,12 +58,13 @@ theorem pkgBase_tail_chars : ∀ s : Bytes, s.all (fun c => isAlnum c || c == do
     · subst hd; rw [pkgBase_cons_dot]; exact ih
     · subst hd; rw [pkgBase_cons_dash]; exact ih
 
-/-- the package name is the base name, or the base name plus `_` when that is a Go keyword or `main` -/
+/-- the package name is the base name, or the base name plus `_` when that is a Go keyword or one of
+    `reservedPkgNames` (`main`, `documentation`) -/
 theorem pkgName_cases (n : Bytes) :
-    (pkgName n = pkgBase n ∧ pkgBase n ∉ goKeywords ∧ pkgBase n ≠ str "main")
-    ∨ (pkgName n = pkgBase n ++ str "_" ∧ (pkgBase n ∈ goKeywords ∨ pkgBase n = str "main")) := by
+    (pkgName n = pkgBase n ∧ pkgBase n ∉ goKeywords ∧ pkgBase n ∉ reservedPkgNames)
+    ∨ (pkgName n = pkgBase n ++ str "_" ∧ (pkgBase n ∈ goKeywords ∨ pkgBase n ∈ reservedPkgNames)) := by
   unfold pkgName
-  by_cases h : (goKeywords.contains (pkgBase n) || pkgBase n == str "main") = true
+  by_cases h : (goKeywords.contains (pkgBase n) || reservedPkgNames.contains (pkgBase n)) = true
   · right
     simp only [h, if_true, true_and]
     simpa using h
@@ -71,9 +72,14 @@ theorem pkgName_cases (n : Bytes) :
     simp only [h]
     simpa using h
 
-/-- `<keyword>_` and `main_` are neither keywords nor `main` -/
-theorem suffixed_not_reserved : ∀ k ∈ str "main" :: goKeywords,
-    k ++ str "_" ∉ goKeywords ∧ k ++ str "_" ≠ str "main" := by decide
+/-- membership in `reservedPkgNames`, spelled out -/
+theorem mem_reservedPkgNames (p : Bytes) :
+    p ∈ reservedPkgNames ↔ p = str "main" ∨ p = str "documentation" := by
+  simp [reservedPkgNames]
+
+/-- `<keyword>_`, `main_` and `documentation_` are neither keywords nor `main` nor `documentation` -/
+theorem suffixed_not_reserved : ∀ k ∈ reservedPkgNames ++ goKeywords,
+    k ++ str "_" ∉ goKeywords ∧ k ++ str "_" ∉ reservedPkgNames := by decide
 
 theorem lowerOrDigit_identChar : ∀ c : UInt8, (isLower c || isDigit c) = true → isIdentChar c = true := by
   apply forall_uint8
@@ -114,9 +120,9 @@ theorem pkgName_shape (n : Bytes) (h : ifaceNameShape n = true) :
     rw [List.all_append, hr']
     decide
 
-/-- **the package name is a Go identifier, no keyword and not `main`** -/
+/-- **the package name is a Go identifier, no keyword, not `main` and not `documentation`** -/
 theorem pkgName_usable (n : Bytes) (h : ifaceNameShape n = true) :
-    isGoIdent (pkgName n) = true ∧ pkgName n ∉ goKeywords ∧ pkgName n ≠ str "main" := by
+    isGoIdent (pkgName n) = true ∧ pkgName n ∉ goKeywords ∧ pkgName n ∉ reservedPkgNames := by
   refine ⟨?_, ?_⟩
   · obtain ⟨c, r, e, hc, hr⟩ := pkgName_shape n h
     rw [e]
@@ -129,8 +135,8 @@ theorem pkgName_usable (n : Bytes) (h : ifaceNameShape n = true) :
     · rw [e]
       apply suffixed_not_reserved
       rcases h1 with h1 | h1
-      · exact List.mem_cons_of_mem _ h1
-      · rw [h1]; exact List.mem_cons_self
+      · exact List.mem_append_right _ h1
+      · exact List.mem_append_left _ h1
 
 /-! ## string literals -/
 
